@@ -285,7 +285,12 @@ extern "C" void frg_log(const char *cstring) { (void)cstring; }
 #ifdef VERIF_ASAN
 #include <sanitizer/asan_interface.h>
 namespace verif { inline volatile uintptr_t &san_addr() { static volatile uintptr_t a = 0; return a; } }
-extern "C" void __asan_on_error() { verif::san_flag() = 1; verif::san_addr() = (uintptr_t)__asan_get_report_address(); }
+namespace verif { inline void (*&san_hook())(uintptr_t) { static void (*h)(uintptr_t) = nullptr; return h; } }   // called at the moment of the first report of an operation
+extern "C" void __asan_on_error() {
+	bool first = !verif::san_flag();
+	verif::san_flag() = 1; verif::san_addr() = (uintptr_t)__asan_get_report_address();
+	if(first && verif::san_hook()) verif::san_hook()(verif::san_addr());
+}
 extern "C" const char *__asan_default_options() {
 	return "halt_on_error=0:detect_leaks=0:allocator_may_return_null=1:detect_stack_use_after_return=0:print_legend=0:print_full_thread_history=0:symbolize=0:fast_unwind_on_fatal=1:malloc_context_size=0:print_summary=0";
 }
